@@ -354,3 +354,103 @@ def build_shape(chain, scope_kind='global'):
         return body + [['return', N(1)]]
     return [['func', 'fn0', ['p0'], False, body + [['return', S('r')]]],
             ['assign', 'rr', C('fn0', N(1))], LOG('end', V('rr'))]
+
+
+# ------------------------------------------------------------------ C04: functions, scoping, host globals
+
+def make_stub(name):
+    def stub(args, options):
+        log = options.get('logFn') if options is not None else None
+        if log is not None:
+            log(f'stub {name} nargs={len(args)}')
+        return args[0] if args else None
+    stub.__name__ = 'stub_' + name
+    return stub
+
+
+REPLACEABLE = ['mathAbs', 'stringLength', 'objectKeys', 'mathMax']
+HOST_SHADOW = ['arrayPush', 'systemLogDebug', 'mathSign', 'stringTrim']
+PARAM_POOL = ['p0', 'p1', 'p2', 'va', 'vb', 'gs', 'len', 'max', 'text', 'arrayPush', 'mathSign', 'q9']
+
+
+class FuncGen(ProgGen):
+    """Programs that stress the calling convention and scoping rules."""
+
+    def __init__(self, rnd):
+        super().__init__(rnd, maxdepth=3, probes=False, p_while_continue=0.0)
+        self.sigs = []  # (name, params, lastarr)
+
+    def fbody(self, name, params, lastarr):
+        r = self.r
+        scope = list(dict.fromkeys(self.vars + params))
+        body = [LOG('in_' + name, *[V(p) for p in params])]
+        for _ in range(r.randint(1, 4)):
+            x = r.random()
+            if x < 0.3:
+                tgt = r.choice(self.vars + ['loc1', 'gs'] + params[:1])
+                body.append(['assign', tgt, self.num(scope)])
+                if tgt not in scope:
+                    scope.append(tgt)
+            elif x < 0.45:
+                body.append(LOG('l_' + name, *[V(v) for v in r.sample(scope, min(2, len(scope)))]))
+            elif x < 0.55:
+                body.append(['expr', C('systemGlobalSet', S(r.choice(self.vars)), self.num(scope))])
+            elif x < 0.65 and self.sigs:
+                callee = r.choice(self.sigs)
+                body.append(['assign', r.choice(['loc2', 'va']), self.callexpr(callee[0], scope)])
+            elif x < 0.75:
+                body.append(['if', [[self.cond(scope), [['return', self.num(scope)]]]], None])
+            elif x < 0.85:
+                body.append(['for', 'itf', None, C('arrayNew', N(1), N(2)), [['assign', r.choice(self.vars), B('+', V('itf'), self.num(scope))]]])
+            else:
+                body.append(['expr', C(r.choice(HOST_SHADOW + ['arrayPush']), V(r.choice(scope)), N(1))])
+        if r.random() < 0.7:
+            body.append(['return', self.expr(scope)])
+        return body
+
+    def callexpr(self, fname, scope, nargs=None):
+        r = self.r
+        n = r.randint(0, 5) if nargs is None else nargs
+        return C(fname, *[self.expr(scope, 2) for _ in range(n)])
+
+    def program(self):
+        r = self.r
+        prog = []
+        nf = r.randint(1, 4)
+        for i in range(nf):
+            np_ = r.randint(0, 3)
+            params = r.sample(PARAM_POOL, np_)
+            lastarr = np_ > 0 and r.random() < 0.35
+            name = f'fn{i}' if r.random() < 0.85 else r.choice(REPLACEABLE)
+            if any(name == s[0] for s in self.sigs):
+                name = f'fn{i}'
+            body = self.fbody(name, params, lastarr)
+            prog.append(['func', name, params, lastarr, body])
+            self.sigs.append((name, params, lastarr))
+            self.funcs.append((name, np_))
+        scope = list(self.vars)
+        for _ in range(r.randint(3, 8)):
+            name, params, _ = r.choice(self.sigs)
+            x = r.random()
+            if x < 0.35:
+                prog.append(['assign', r.choice(self.vars), self.callexpr(name, scope)])
+            elif x < 0.5:
+                prog.append(['assign', 'fv', V(name)])
+                prog.append(['assign', r.choice(self.vars), self.callexpr('fv', scope)])
+            elif x < 0.65:
+                prog.append(['assign', 'pf', C('systemPartial', V(name), *[self.expr(scope, 2) for _ in range(r.randint(1, 3))])])
+                prog.append(['assign', r.choice(self.vars), self.callexpr('pf', scope, r.randint(0, 3))])
+            elif x < 0.75:
+                prog.append(['assign', 'arr', C('arrayNew', N(3), N(1), N(2), N(1))])
+                prog.append(['expr', C('arraySort', V('arr'), V(name))])
+                prog.append(LOG('sorted', V('arr')))
+            elif x < 0.85:
+                prog.append(['assign', 'ixf', C('arrayIndexOf', C('arrayNew', N(0), N(2), N(0), N(3)), V(name))])
+                prog.append(LOG('ixf', V('ixf')))
+            elif x < 0.92:
+                prog.append(['assign', r.choice(self.vars), C(r.choice(REPLACEABLE), self.expr(scope, 2))])
+            else:
+                prog.append(['assign', r.choice(['gs'] + self.vars), self.num(scope)])
+            prog.append(LOG('g', *[V(v) for v in self.vars]))
+        prog.append(LOG('end', *[V(v) for v in self.vars + ['gs']]))
+        return prog
